@@ -211,6 +211,13 @@ func main() {
 	os.WriteFile(filepath.Join(zdir, "sites_gen.go"), []byte(sb.String()), 0o644)
 	rep[filepath.Join(*repo, "zzrt", "zzrt.go")] = filepath.Join(zdir, "zzrt.go")
 	rep[filepath.Join(*repo, "zzrt", "sites_gen.go")] = filepath.Join(zdir, "sites_gen.go")
+	zs, err := os.ReadFile("/verif/sched/zzrt/zsync/zsync.go")
+	if err != nil {
+		fatal("%v", err)
+	}
+	os.MkdirAll(filepath.Join(zdir, "zsync"), 0o755)
+	os.WriteFile(filepath.Join(zdir, "zsync", "zsync.go"), zs, 0o644)
+	rep[filepath.Join(*repo, "zzrt", "zsync", "zsync.go")] = filepath.Join(zdir, "zsync", "zsync.go")
 	js, _ := json.MarshalIndent(map[string]interface{}{"Replace": rep}, "", " ")
 	os.WriteFile(filepath.Join(*out, "overlay.json"), js, 0o644)
 	nv := 0
@@ -238,6 +245,13 @@ func instrumentFile(pi *pkgInfo, af *ast.File) {
 	fc := &fileCtx{pi: pi, imports: map[string]string{}}
 	for _, im := range af.Imports {
 		p, _ := strconv.Unquote(im.Path.Value)
+		if p == "sync" {
+			// cooperative replacements of the blocking primitives
+			if im.Name == nil {
+				im.Name = ast.NewIdent("sync")
+			}
+			im.Path.Value = strconv.Quote(module + "/zzrt/zsync")
+		}
 		name := filepath.Base(p)
 		if im.Name != nil {
 			name = im.Name.Name
